@@ -496,12 +496,55 @@ func (w *wf) bodyBases() []string {
 	if len(w.f.Params) > 0 {
 		recv = w.f.Params[0]
 	}
+	// an in-package helper called on the receiver that returns the body slice (e.g. ev.payload(f))
+	instrs(w.f, func(in ssa.Instruction) {
+		c, ok := in.(*ssa.Call)
+		if !ok || c.Common().IsInvoke() {
+			return
+		}
+		cal := c.Common().StaticCallee()
+		if cal == nil || cal.Blocks == nil || cal.Pkg != w.f.Pkg || cal == w.f || len(c.Common().Args) == 0 {
+			return
+		}
+		a0 := strip(c.Common().Args[0])
+		if fl, ok := a0.(*ssa.Field); ok && fl.X == recv {
+			a0 = recv
+		}
+		if a0 != recv {
+			return
+		}
+		if _, isSlice := c.Type().Underlying().(*types.Slice); !isSlice {
+			return
+		}
+		sub := newWF(cal)
+		hl := sub.bodyBasesNoHelpers()
+		rets := returnsOf(cal)
+		if len(hl) == 1 && len(rets) == 1 && len(rets[0].Results) == 1 {
+			if off, isBase := sub.bases[rets[0].Results[0]]; isBase {
+				if k, isK := off.isConst(); isK && k == 0 {
+					w.bases[c] = affConst(0)
+					used = append(used, hl[0])
+				}
+			}
+		}
+	})
+	used = append(used, w.bodyBasesNoHelpers()...)
+	return uniq(used)
+}
+
+// bodyBasesNoHelpers: the direct form, `bytes[H:]` sliced in this very function.
+func (w *wf) bodyBasesNoHelpers() []string {
+	var used []string
+	recv := ssa.Value(nil)
+	if len(w.f.Params) > 0 {
+		recv = w.f.Params[0]
+	}
 	isBuf := func(v ssa.Value) bool {
 		v = strip(v)
 		if v == recv {
 			return true
 		}
-		if f, ok := v.(*ssa.Field); ok && f.X == recv { // embedded binlogEvent of the flavour types
+		if f, ok := v.(*ssa.Field); ok && f.X == recv {
 			return true
 		}
 		if c, ok := v.(*ssa.Call); ok {
